@@ -106,7 +106,11 @@ def check(spec, ctx):
     kw = {"duration": dur, "include_incomplete": inc}
     if hop is not None:
         kw["hop"] = hop
+    from vf.core import snapshot
+
+    before = snapshot(clip)
     segs = ctx.call(spec, f"segment_clip(clip=[{start},{end}], {kw})", lambda: list(segment_clip(clip, **kw)))
+    ctx.unchanged(spec, "segment_clip: the parent clip", before, clip)
     ctx.case(spec, nontrivial=nontrivial, labels=[spec["cls"], "incomplete" if inc else "complete_only", "hop<d" if eff_hop < dur else ("hop=d" if eff_hop == dur else "hop>d"), "whole" if whole else "nonwhole"], out={"n": len(segs)})
     ref = reference(start, end, dur, eff_hop, inc)
     got = [(s.start_time, s.end_time) for s in segs]
